@@ -5,11 +5,15 @@ use std::collections::HashMap;
 use std::io::Write;
 use std::str::FromStr;
 
-fn header(h: &str) -> String {
+/// spellings of an unknown target name: a wrong dialect, a known dialect with trailing components, a missing or
+/// wrong prefix, wrong case
+pub const UNKNOWN: [&str; 8] = ["sql.foo", "sql.mssql.v2", "sql.any.thing", "sql.postgres.v14", "foo", "mssql", "sqlx.mssql", "sql.MsSql "];
+
+fn header(h: &str, unk: &str) -> String {
     match h {
         "absent" => String::new(),
         "any" => "prql target:sql.any\n\n".to_string(),
-        "unknown" => "prql target:sql.foo\n\n".to_string(),
+        "unknown" => format!("prql target:{}\n\n", unk.trim()),
         d => format!("prql target:sql.{d}\n\n"),
     }
 }
@@ -26,11 +30,11 @@ fn dialect_value(d: &str) -> prqlc::sql::Dialect {
 }
 
 /// outcome of one compile: (id, stage, rq-verdict)
-fn run(src: &str, opt: &str, ids: &mut HashMap<String, i64>) -> (i64, String, String) {
-    run_with(src, opt, ids, false)
+fn run(src: &str, opt: &str, ids: &mut HashMap<String, i64>, unk: &str) -> (i64, String, String) {
+    run_with(src, opt, ids, false, unk)
 }
 
-fn run_with(src: &str, opt: &str, ids: &mut HashMap<String, i64>, canonical: bool) -> (i64, String, String) {
+fn run_with(src: &str, opt: &str, ids: &mut HashMap<String, i64>, canonical: bool, unk: &str) -> (i64, String, String) {
     // the option axis goes through Target::from_str, as every binding does; the canonical cell of a dialect is
     // compiled with the Dialect value constructed directly
     if canonical {
@@ -40,7 +44,7 @@ fn run_with(src: &str, opt: &str, ids: &mut HashMap<String, i64>, canonical: boo
     let name = match opt {
         "absent" => None,
         "any" => Some("sql.any".to_string()),
-        "unknown" => Some("sql.foo".to_string()),
+        "unknown" => Some(unk.trim().to_string()),
         d => Some(format!("sql.{d}")),
     };
     let target = match name {
@@ -85,15 +89,19 @@ pub fn main(args: &[String]) -> i32 {
         let mut ids: HashMap<String, i64> = HashMap::new();
         writeln!(out, "{}", json!({"event":"Program","prog":pi,"src":p})).unwrap();
         for d in api::DIALECTS {
-            let (id, stage, rq) = run_with(p, d, &mut ids, true);
+            let (id, stage, rq) = run_with(p, d, &mut ids, true, "");
             writeln!(out, "{}", json!({"event":"Canon","prog":pi,"dialect":d,"outcome":id,"stage":stage,"rq":rq})).unwrap();
         }
         for c in &cells {
             let opt = c["opt"].as_str().unwrap_or("absent");
             let hdr = c["hdr"].as_str().unwrap_or("absent");
-            let src = format!("{}{}", header(hdr), p);
-            let (id, stage, rq) = run(&src, opt, &mut ids);
-            writeln!(out, "{}", json!({"event":"Cell","prog":pi,"opt":opt,"hdr":hdr,"outcome":id,"stage":stage,"rq":rq})).unwrap();
+            // a cell with an unknown name is run once per spelling of an unknown name: each must behave as the cell demands
+            let spellings: Vec<&str> = if opt == "unknown" || hdr == "unknown" { UNKNOWN.to_vec() } else { vec![""] };
+            for unk in spellings {
+                let src = format!("{}{}", header(hdr, unk), p);
+                let (id, stage, rq) = run(&src, opt, &mut ids, unk);
+                writeln!(out, "{}", json!({"event":"Cell","prog":pi,"opt":opt,"hdr":hdr,"outcome":id,"stage":stage,"rq":rq,"spelling":unk})).unwrap();
+            }
         }
     }
     writeln!(out, "{}", json!({"event":"End"})).unwrap();
